@@ -253,6 +253,35 @@ func sameAccess(a, b ssa.Value) bool {
 // a comma-ok lookup of the same map and key.
 func absentGuarded(mu *ssa.MapUpdate) (bool, string) {
 	fn := mu.Parent()
+	// the presence test may be made by a helper: a call h(m, k) / m.h(k) of an in-repo
+	// function every return of which is the ok flag of `_, ok := m[k]` on its own
+	// parameters, whose true edge leaves before the update
+	for _, b := range fn.Blocks {
+		ifi, ok := b.Instrs[len(b.Instrs)-1].(*ssa.If)
+		if !ok {
+			continue
+		}
+		cond := ifi.Cond
+		absentIdx := 1
+		if u, ok := cond.(*ssa.UnOp); ok && u.Op == token.NOT {
+			cond, absentIdx = u.X, 0
+		}
+		call, ok := cond.(*ssa.Call)
+		if !ok {
+			continue
+		}
+		sc := call.Common().StaticCallee()
+		if sc == nil || !inRepoFn(sc) || len(sc.Blocks) == 0 {
+			continue
+		}
+		mi, ki := presenceTestParams(sc)
+		if mi < 0 || ki < 0 || mi >= len(call.Common().Args) || ki >= len(call.Common().Args) {
+			continue
+		}
+		if sameAccess(call.Common().Args[mi], mu.Map) && sameAccess(call.Common().Args[ki], mu.Key) && edgeDominates(b, absentIdx, mu.Block()) {
+			return true, "dominated by the absent edge of " + short(sc) + ", which reports `_, ok := m[k]` of its own arguments"
+		}
+	}
 	for _, b := range fn.Blocks {
 		for _, ins := range b.Instrs {
 			lk, ok := ins.(*ssa.Lookup)
@@ -291,6 +320,79 @@ func absentGuarded(mu *ssa.MapUpdate) (bool, string) {
 		}
 	}
 	return false, ""
+}
+
+// ctxParamFrom: v is a parameter of helper (a function the entry function fn calls
+// directly) and every call of helper from fn passes fn's own ctx parameter there.
+func ctxParamFrom(helper *ssa.Function, v ssa.Value, fn *ssa.Function) bool {
+	prm, ok := v.(*ssa.Parameter)
+	if !ok || helper == fn || len(fn.Params) == 0 {
+		return false
+	}
+	pi := -1
+	for i, q := range helper.Params {
+		if q == prm {
+			pi = i
+		}
+	}
+	if pi < 0 {
+		return false
+	}
+	found := false
+	for _, b := range fn.Blocks {
+		for _, ins := range b.Instrs {
+			c, ok := ins.(*ssa.Call)
+			if !ok {
+				continue
+			}
+			sc := c.Common().StaticCallee()
+			if sc == nil || (sc != helper && sc.Origin() != helper && helper.Origin() != sc && (sc.Origin() == nil || sc.Origin() != helper.Origin())) {
+				continue
+			}
+			if pi >= len(c.Common().Args) || c.Common().Args[pi] != ssa.Value(fn.Params[0]) {
+				return false
+			}
+			found = true
+		}
+	}
+	return found
+}
+
+// presenceTestParams: fn returns, on every path, the ok flag of one comma-ok
+// lookup m[k] where m and k are two of its parameters: their indices (else -1,-1).
+func presenceTestParams(fn *ssa.Function) (int, int) {
+	mi, ki := -1, -1
+	for _, b := range fn.Blocks {
+		ret, ok := b.Instrs[len(b.Instrs)-1].(*ssa.Return)
+		if !ok {
+			continue
+		}
+		if len(ret.Results) != 1 {
+			return -1, -1
+		}
+		ex, ok := ret.Results[0].(*ssa.Extract)
+		if !ok || ex.Index != 1 {
+			return -1, -1
+		}
+		lk, ok := ex.Tuple.(*ssa.Lookup)
+		if !ok || !lk.CommaOk {
+			return -1, -1
+		}
+		m, k := -1, -1
+		for i, prm := range fn.Params {
+			if lk.X == ssa.Value(prm) {
+				m = i
+			}
+			if lk.Index == ssa.Value(prm) {
+				k = i
+			}
+		}
+		if m < 0 || k < 0 || (mi >= 0 && (mi != m || ki != k)) {
+			return -1, -1
+		}
+		mi, ki = m, k
+	}
+	return mi, ki
 }
 
 func ruleGLB2(p *Program) *RuleResult {
@@ -449,29 +551,32 @@ func ruleGLB3(p *Program) *RuleResult {
 			return r.anchorFail(err)
 		}
 		nfmt := 0
-		for _, b := range fn.Blocks {
-			for _, ins := range b.Instrs {
-				call, ok := ins.(*ssa.Call)
-				if !ok || call.Common().StaticCallee() == nil {
-					continue
-				}
-				sc := call.Common().StaticCallee()
-				if fnPkgPath(sc) != "time" {
-					continue
-				}
-				nfmt++
-				recv := call.Common().Args[0]
-				okSrc := false
-				if ld, ok := recv.(*ssa.UnOp); ok {
-					if fa, ok := ld.X.(*ssa.FieldAddr); ok && fieldName(fa) == "Now" && fa.X == ssa.Value(fn.Params[0]) {
-						okSrc = true
+		for _, f := range withPackageCallees(fn, 2) {
+			for _, b := range f.Blocks {
+				for _, ins := range b.Instrs {
+					call, ok := ins.(*ssa.Call)
+					if !ok || call.Common().StaticCallee() == nil {
+						continue
 					}
-				}
-				key := "impl." + n + "|" + sc.RelString(nil)
-				if okSrc {
-					r.ok(key, "impl."+n+" reads ctx.Now", p.instrPos(ins), "time value is the load of Context.Now of the ctx parameter", true)
-				} else {
-					r.bad(key, "impl."+n+" uses a time value that is not ctx.Now", p.instrPos(ins), "now()/today()/timeOfDay() must denote the one instant stored in the evaluation Context")
+					sc := call.Common().StaticCallee()
+					if fnPkgPath(sc) != "time" {
+						continue
+					}
+					nfmt++
+					recv := call.Common().Args[0]
+					okSrc := false
+					if ld, ok := recv.(*ssa.UnOp); ok {
+						// (a helper's ctx parameter stands for the argument of its call from fn)
+						if fa, ok := ld.X.(*ssa.FieldAddr); ok && fieldName(fa) == "Now" && (fa.X == ssa.Value(fn.Params[0]) || ctxParamFrom(f, fa.X, fn)) {
+							okSrc = true
+						}
+					}
+					key := "impl." + n + "|" + sc.RelString(nil)
+					if okSrc {
+						r.ok(key, "impl."+n+" reads ctx.Now", p.instrPos(ins), "time value is the load of Context.Now of the ctx parameter", true)
+					} else {
+						r.bad(key, "impl."+n+" uses a time value that is not ctx.Now", p.instrPos(ins), "now()/today()/timeOfDay() must denote the one instant stored in the evaluation Context")
+					}
 				}
 			}
 		}
@@ -516,47 +621,51 @@ func ruleGLB4(p *Program) *RuleResult {
 	if err != nil {
 		return r.anchorFail(err)
 	}
-	copied := map[string]bool{}
-	var fresh *ssa.Alloc
-	for _, b := range fn.Blocks {
-		for _, ins := range b.Instrs {
-			st, ok := ins.(*ssa.Store)
-			if !ok {
-				continue
-			}
-			fa, ok := st.Addr.(*ssa.FieldAddr)
-			if !ok {
-				continue
-			}
-			al, ok := fa.X.(*ssa.Alloc)
-			if !ok {
-				continue
-			}
-			fresh = al
-			if ld, ok := st.Val.(*ssa.UnOp); ok {
-				if fb, ok := ld.X.(*ssa.FieldAddr); ok && fb.X == ssa.Value(fn.Params[0]) && fieldName(fb) == fieldName(fa) {
-					copied[fieldName(fa)] = true
-				}
-			}
-		}
+	// Clone is analysed on a receiver whose fields carry marks: the Context it hands
+	// back must be a freshly built object (a snapshot of this activation's allocation,
+	// not the receiver) whose carried fields hold the receiver's marks
+	ctxT := typeByName(p, mod+"/fhirpath/internal/expr", "Context")
+	st, ok := ctxT.Underlying().(*types.Struct)
+	if ctxT == nil || !ok {
+		return r.anchorFail(fmt.Errorf("anchor: expr.Context is not a struct"))
+	}
+	recvStruct := aval{k: kStruct}
+	for i := 0; i < st.NumFields(); i++ {
+		recvStruct.elems = append(recvStruct.elems, nonnil("receiver."+st.Field(i).Name()))
+	}
+	recv := ptrTo(recvStruct)
+	recv.notes = []string{"the-receiver"}
+	an := newAnalyzer()
+	an.snapshots = true
+	res := an.analyze(fn, []aval{recv})
+	if res.nonconverged || len(res.rets) == 0 {
+		r.undecided("Clone|shape", "Clone could not be analysed", p.pos(fn.Pos()), "unsupported shape")
+		return r
 	}
 	for _, f := range cloneCarried {
 		r.count("fields", 1)
-		if copied[f] {
-			r.ok("Clone|"+f, "Clone copies "+f+" from the receiver", p.pos(fn.Pos()), "field-copy completeness", true)
+		idx := structFieldIndex(ctxT, f)
+		okAll := idx >= 0
+		for _, ri := range res.rets {
+			v := ri.vals[0]
+			if v.ptrOf == nil || v.ptrOf.k != kStruct || idx < 0 || idx >= len(v.ptrOf.elems) || !hasNote(v.ptrOf.elems[idx], "receiver."+f) {
+				okAll = false
+			}
+		}
+		if okAll {
+			r.ok("Clone|"+f, "Clone copies "+f+" from the receiver", p.pos(fn.Pos()), "field-copy completeness (the returned object's field holds the receiver's value)", true)
 		} else {
 			r.bad("Clone|"+f, "Clone does not carry "+f, p.pos(fn.Pos()), "sub-expressions would not see the same instant / variables / patch target")
 		}
 	}
 	// every return is the fresh struct (not the receiver: sharing would let
 	// sub-expressions write the parent's state)
-	for _, b := range fn.Blocks {
-		if ret, ok := b.Instrs[len(b.Instrs)-1].(*ssa.Return); ok {
-			if len(ret.Results) == 1 && fresh != nil && ret.Results[0] == ssa.Value(fresh) {
-				r.ok("Clone|returns-fresh", "Clone returns a new Context", p.instrPos(ret), "returned value is the Alloc built in Clone", false)
-			} else {
-				r.bad("Clone|returns-fresh", "Clone does not return a freshly built Context", p.instrPos(ret), "cloned contexts must not alias the receiver")
-			}
+	for _, ri := range res.rets {
+		v := ri.vals[0]
+		if v.k == kNonNil && v.ptrOf != nil && !hasNote(v, "the-receiver") {
+			r.ok("Clone|returns-fresh", "Clone returns a new Context", p.instrPos(ri.instr), "the returned value is an object allocated in Clone", false)
+		} else {
+			r.bad("Clone|returns-fresh", "Clone does not return a freshly built Context", p.instrPos(ri.instr), "cloned contexts must not alias the receiver")
 		}
 	}
 	r.floor("fields", 3)
